@@ -232,6 +232,12 @@ public:
                             std::chrono::milliseconds timeout =
                               std::chrono::milliseconds{30000}) override;
 
+  /// \brief connectSync() to an ADDRESS the caller resolved from \p tlsServerName
+  /// itself: a TLS client session sends that name as SNI and verifies the peer
+  /// certificate against it (an address alone carries no name to check).
+  ConnectResult connectSync(const std::string &host, std::uint16_t port, TlsMode tls,
+                            std::chrono::milliseconds timeout, const std::string &tlsServerName);
+
   SendResult sendSync(SessionId sid, iora::core::BufferView data,
                       std::chrono::milliseconds timeout =
                         std::chrono::milliseconds{30000}) override;
